@@ -159,7 +159,7 @@ structure Inv (V : Variant) (P : Prog) (c : Code) (w : World) (st : St) : Prop w
 
 theorem inv_empty (V P c w) : Inv V P c w {} := ⟨by simp, by simp, by simp⟩
 
-theorem inv_newExec {V P c w c' w' st} (h : Inv V P c w st) : Inv V P c' w' st.newExec :=
+theorem inv_newExec {V P c w c' w' st} (er : List Key) (h : Inv V P c w st) : Inv V P c' w' (st.newExec er) :=
   ⟨h.evals, h.nodes, by simp [St.newExec]⟩
 
 /-- what one evaluation step has to deliver -/
@@ -204,8 +204,10 @@ theorem finishJob_sound {V : Variant} {P c w st} {k : Key} {r : Res} {ue : List 
     (hU : UClaim P (.call k.1.name (.lit k.2)) r (insertTH k.1 ue)) :
     Inv V P c w (finishJob V st k r ue).1 := by
   unfold finishJob
-  have h1 : Inv V P c w (addNode st ⟨k, r, insertTH k.1 ue⟩) :=
-    inv_addNode hI (by intro v hv; simp only at hv; subst hv; exact hU)
+  have h1 : Inv V P c w (if recorded st k r then addNode st ⟨k, r, insertTH k.1 ue⟩ else st) := by
+    split
+    · exact inv_addNode hI (by intro v hv; simp only at hv; subst hv; exact hU)
+    · exact hI
   refine ⟨h1.evals, h1.nodes, ?_⟩
   intro k' r' sub hm
   rcases List.mem_cons.1 hm with heq | hm
@@ -288,8 +290,10 @@ theorem jobStep_sound {V : Variant} {P c w ev st} {nm : Nat} {va : Val} {st' r u
       exact ⟨hI, hD, hU⟩
     · simp only [Option.some.injEq, Prod.mk.injEq] at h
       obtain ⟨rfl, rfl, rfl⟩ := h
-      refine ⟨inv_addNode hI ?_, hD, hU⟩
-      intro v hv; simp at hv
+      refine ⟨?_, hD, hU⟩
+      split
+      · exact inv_addNode hI (by intro v hv; simp at hv)
+      · exact hI
   · split at h
     · -- a current call node was found (only looked for when the task is shallow)
       next nd hf =>
